@@ -138,7 +138,11 @@ where
         part_ids: &mut [usize],
         weights: &'a [W],
     ) -> Result<Self::Metadata, Self::Error> {
-        let part_count = 1 + *part_ids.par_iter().max().unwrap_or(&0);
+        // Saturating: an id of usize::MAX must not overflow before the input is validated.
+        let part_count = part_ids
+            .par_iter()
+            .max()
+            .map_or(1, |max_id| max_id.saturating_add(1));
         vn_first(part_ids, weights, part_count)
     }
 }
